@@ -1234,7 +1234,17 @@ def lang_case(ctx, rng, W, tree=None):
             ctx.count("lang.agree_model")
         else:
             ctx.count("lang.engine_vs_model")
-            ctx.note("engine vs model differ on intended tree: %r" % (r["text"],))
+            if popB:
+                ctx.note("engine vs model differ on intended tree: %r" % (r["text"],))
+            else:
+                # the parser built the intended tree, but the engine evaluates that tree differently from the reading of the
+                # expression (never observed on the pinned tree in 49 000 thorough cases): the user still gets the wrong
+                # documents for a well-formed expression
+                exp_, got_ = r["expected"], r["got"]
+                ctx.fail("language.docs", "engine-evaluates-the-intended-tree-differently:%s" % _culprit(tree),
+                         dict(wit, expected=sorted(exp_, key=int)[:40], got=sorted(got_, key=int)[:40],
+                              missing=sorted(exp_ - got_, key=int)[:20], extra=sorted(got_ - exp_, key=int)[:20]),
+                         "expected %d docs, got %d" % (len(exp_), len(got_)))
     else:
         if r.get("eng") is not None and r["eng"] != expected:
             ctx.count("lang.engine_vs_model")
